@@ -284,3 +284,108 @@ INSERT_ONCE = Contract(
 )
 
 ALL.append((INSERT_ONCE, "heavy", "Operations.one_knot_insert_once", None))
+
+
+# ---- functions.IndexableFunction.__getitem__ -----------------------------------------------------------------
+def h_valid_first(eng, st, args, kw, node, exits):
+    """__valid_first_index by contract (proved above for each argument kind)."""
+    o, i = args
+    if isinstance(i, Num) and i.is_int:
+        npts = o.fields["npts"].z
+        eng.raise_exc(st, "IndexError", z3.Or(i.z < -npts, i.z >= npts), node.lineno, exits)
+        return E.NONE
+    if isinstance(i, E.Opaque) and i.pytype == "slice":
+        return E.NONE
+    eng.raise_exc(st, "TypeError", z3.BoolVal(True), node.lineno, exits)
+    raise E._DeadPath()
+
+
+def h_valid_second(eng, st, args, kw, node, exits):
+    o, j = args
+    if isinstance(j, Num) and j.is_int:
+        deg = o.fields["degree"].z
+        eng.raise_exc(st, "IndexError", z3.Or(j.z < 0, j.z > deg), node.lineno, exits)
+        return E.NONE
+    eng.raise_exc(st, "TypeError", z3.BoolVal(True), node.lineno, exits)
+    raise E._DeadPath()
+
+
+def h_evaluator(eng, st, args, kw, node, exits):
+    """FunctionEvaluator(self, i, j): remembered as the ghost pair (i, j) so the postcondition can say which table row / sub-degree was selected."""
+    return Tup([args[1], args[2]])
+
+
+GETITEM_CALLS = {"method:Function._IndexableFunction__valid_first_index": CallSpec(h_valid_first),
+                 "method:Function._IndexableFunction__valid_second_index": CallSpec(h_valid_second),
+                 "func:FunctionEvaluator": CallSpec(h_evaluator),
+                 "getattr:Function.degree": CallSpec(lambda eng, st, a, kw, node, exits: a[0].fields["degree"]),
+                 "getattr:Function.npts": CallSpec(lambda eng, st, a, kw, node, exits: a[0].fields["npts"])}
+
+
+def mk_getitem(kind, ensures, raises, tag, canary=None):
+    return Contract("functions.IndexableFunction.__getitem__[%s]" % tag, params={"self": "obj:Function", "index": kind}, setup=fn_self,
+                    ensures=ensures, raises=raises, calls=GETITEM_CALLS, canary=canary)
+
+
+GETITEM = [
+    mk_getitem("int", ["result[0] == index and result[1] == degree", "-npts <= index and index < npts"],
+               {"IndexError": "index < -npts or index >= npts"}, "f[i]", canary="result[1] == 0 and degree > 0"),
+    mk_getitem("tup:int,int", ["result[0] == index[0] and result[1] == index[1]", "-npts <= index[0] and index[0] < npts", "0 <= index[1] and index[1] <= degree"],
+               {"IndexError": "index[0] < -npts or index[0] >= npts or index[1] < 0 or index[1] > degree"}, "f[i,j]", canary="result[1] == degree and index[1] < degree"),
+    mk_getitem("tup:opaque:slice,int", ["result[1] == index[1]", "0 <= index[1] and index[1] <= degree"],
+               {"IndexError": "index[1] < 0 or index[1] > degree"}, "f[:,j]"),
+    mk_getitem("tup:int,int,int", ["False"], {"IndexError": "True"}, "f[i,j,k]"),
+    mk_getitem("tup:int,real", ["False"], {"IndexError": "index[0] < -npts or index[0] >= npts", "TypeError": "True"}, "f[i,1.5]"),
+    mk_getitem("opaque:slice", ["result[1] == degree"], {}, "f[:]"),
+    mk_getitem("str", ["False"], {"TypeError": "True"}, "f['a']"),
+]
+for c in GETITEM:
+    ALL.append((c, "functions", "IndexableFunction.__getitem__", None))
+
+
+# ---- heavy.Calculus.difference_matrix -------------------------------------------------------------------------------
+def h_difference_vector(eng, st, args, kw, node, exits):
+    """Calculus.difference_vector by contract (proved above): AssertionError for degree 0, else a_i = p/(U[i+p]-U[i]) or 0."""
+    o = args[0]
+    U, p, n = o.fields["_seq"], o.fields["_ImmutableKnotVector__degree"].z, o.fields["_ImmutableKnotVector__npts"].z
+    eng.raise_exc(st, "AssertionError", p <= 0, node.lineno, exits)
+    r = fresh_seq("avals")
+    i = fresh_int("i")
+    st.assume(r.n == n)
+    d = z3.Select(U.arr, i + p) - z3.Select(U.arr, i)
+    st.assume(z3.ForAll([i], z3.Implies(z3.And(i >= 0, i < n), z3.Select(r.arr, i) == z3.If(d == 0, z3.RealVal(0), z3.ToReal(p) / d)),
+                        patterns=[z3.Select(r.arr, i)]))
+    return r
+
+
+def h_np_diag(eng, st, args, kw, node, exits):
+    v = args[0]
+    m = E.Mat(E.fresh("diag", E.MATSORT), v.n, v.n)
+    i, j = fresh_int("i"), fresh_int("j")
+    st.assume(z3.ForAll([i, j], z3.Implies(z3.And(i >= 0, i < v.n, j >= 0, j < v.n),
+                                           z3.Select(z3.Select(m.arr, i), j) == z3.If(i == j, z3.Select(v.arr, i), z3.RealVal(0)))))
+    return m
+
+
+def dm_closed(se, r, c, it=None):
+    a = se.st.env["avals"]
+    lim = it.z if it is not None else None
+    sup = z3.And(c.z == r.z + 1) if lim is None else z3.And(c.z == r.z + 1, r.z < lim)
+    return Num(z3.If(c.z == r.z, z3.Select(a.arr, r.z), z3.If(sup, -z3.Select(a.arr, r.z + 1), z3.RealVal(0))), False)
+
+
+DIFFERENCE_MATRIX = Contract(
+    "heavy.Calculus.difference_matrix",
+    params={"knotvector": "obj:ImmutableKnotVector"},
+    setup=lambda eng, st: setup_self(eng, st) or st.env.__setitem__("knotvector", st.env["self"]),
+    spec={"dm": dm_closed, "closed": closed_diff},
+    ensures=["all(all(result[r, c] == dm(r, c) for c in range(n)) for r in range(n))", "all(avals[i] == closed(i) for i in range(n))", "len(avals) == n"],
+    raises={"AssertionError": "p <= 0"},
+    loops={0: dict(invariant=["0 <= it0 and it0 <= npts - 1 or npts == 0", "npts == n", "len(avals) == n",
+                              "all(all(matrix[r, c] == dm(r, c, it0) for c in range(n)) for r in range(n))"], decreases="npts - it0")},
+    calls=dict(KV_CALLS, **{"func:ImmutableKnotVector": CallSpec(h_ctor_identity), "static:Calculus.difference_vector": CallSpec(h_difference_vector),
+                            "static:np.diag": CallSpec(h_np_diag), "func:totuple": CallSpec(h_totuple_any)}),
+    consts={"np": E.Const(("module", "np")), "Calculus": E.Const(("module", "Calculus"))},
+    canary="result[0, 1] == 0",
+)
+ALL.append((DIFFERENCE_MATRIX, "heavy", "Calculus.difference_matrix", None))
